@@ -16,6 +16,7 @@ import (
 	"net"
 	"os"
 	"path/filepath"
+	"sync"
 	"time"
 )
 
@@ -29,8 +30,8 @@ type material struct {
 	ca1Key, ca2Key *ecdsa.PrivateKey
 	ca1PEM         []byte
 
-	srv1, srv2         tls.Certificate
-	srv1Leaf, srv2Leaf *x509.Certificate
+	srv0, srv1, srv2             tls.Certificate
+	srv0Leaf, srv1Leaf, srv2Leaf *x509.Certificate
 
 	rsaKey  *rsa.PrivateKey
 	rsaCert *x509.Certificate
@@ -122,7 +123,51 @@ func mintLeaf(cn string, pub crypto.PublicKey, ca *x509.Certificate, caKey *ecds
 	return x509.ParseCertificate(der)
 }
 
+// The "system" trust store of the worker process: one minted CA, installed once per process
+// through the environment variables crypto/x509 honours on Linux, before the first use of the
+// system pool. The file only has to exist while the store is loaded.
+var (
+	sysOnce   sync.Once
+	sysCA     *x509.Certificate
+	sysCAKey  *ecdsa.PrivateKey
+	sysErr    error
+	sysPinned bool
+)
+
+func pinSystemRoots() {
+	sysOnce.Do(func() {
+		var pemBytes []byte
+		if sysCA, sysCAKey, pemBytes, sysErr = mintCA("verif system root"); sysErr != nil {
+			return
+		}
+		dir, err := os.MkdirTemp("", "verif-c18-sys-")
+		if err != nil {
+			sysErr = err
+			return
+		}
+		defer os.RemoveAll(dir)
+		file := filepath.Join(dir, "roots.pem")
+		empty := filepath.Join(dir, "empty")
+		if sysErr = os.WriteFile(file, pemBytes, 0o600); sysErr != nil {
+			return
+		}
+		if sysErr = os.Mkdir(empty, 0o700); sysErr != nil {
+			return
+		}
+		_ = os.Setenv("SSL_CERT_FILE", file)
+		_ = os.Setenv("SSL_CERT_DIR", empty)
+		if sp, err := x509.SystemCertPool(); err == nil && sp != nil {
+			subj := sp.Subjects() //nolint:staticcheck
+			sysPinned = len(subj) == 1 && string(subj[0]) == string(sysCA.RawSubject)
+		}
+	})
+}
+
 func mint() (mt *material, err error) {
+	pinSystemRoots()
+	if sysErr != nil {
+		return nil, sysErr
+	}
 	mt = &material{files: map[string]string{}, cache: tls.NewLRUClientSessionCache(8)}
 	if mt.dir, err = os.MkdirTemp("", "verif-c18-"); err != nil {
 		return nil, err
@@ -139,6 +184,14 @@ func mint() (mt *material, err error) {
 		return nil, err
 	}
 	// servers
+	k0, err := ecdsa.GenerateKey(elliptic.P256(), rand.Reader)
+	if err != nil {
+		return nil, err
+	}
+	if mt.srv0Leaf, err = mintLeaf("alpha.test", &k0.PublicKey, sysCA, sysCAKey, true, []string{"alpha.test"}, []net.IP{net.IPv4(127, 0, 0, 1)}); err != nil {
+		return nil, err
+	}
+	mt.srv0 = tls.Certificate{Certificate: [][]byte{mt.srv0Leaf.Raw}, PrivateKey: k0, Leaf: mt.srv0Leaf}
 	k1, err := ecdsa.GenerateKey(elliptic.P256(), rand.Reader)
 	if err != nil {
 		return nil, err
